@@ -256,6 +256,12 @@ func (s *Session) bind(o *Config) {
 		return
 	}
 
+	// Only the IQ that answers our request counts: not another stanza that happens to carry
+	// type='result', not the result of another request.
+	if iq.XMLName.Local != "iq" || iq.Id != iqB.Id {
+		s.err = errors.New("iq bind failed: the server did not answer the bind request")
+		return
+	}
 	// An error reply may echo the bind payload of the request (RFC 6120 8.3.1): only a result binds.
 	if iq.Type != stanza.IQTypeResult {
 		s.err = errors.New("iq bind failed: server replied with type '" + string(iq.Type) + "'")
@@ -307,6 +313,10 @@ func (s *Session) rfc3921Session() {
 
 		if s.err = s.transport.GetDecoder().Decode(&iq); s.err != nil {
 			s.err = errors.New("expecting iq result after session open: " + s.err.Error())
+			return
+		}
+		if iq.XMLName.Local != "iq" || iq.Id != se.Id {
+			s.err = errors.New("session open failed: the server did not answer the session request")
 			return
 		}
 		if iq.Type != stanza.IQTypeResult {
